@@ -1,5 +1,6 @@
 import Driver.Common
 import Scion.Model.Trc
+import Scion.Model.TrcUpdate
 /-! Driver for the TRC models (engine `trc`, properties C33 and C32).  Parses fact lines, calls
 the model, prints.  Formats: see `harness/cmd/trc/main.go`. -/
 namespace Driver.Trc
@@ -41,10 +42,60 @@ def showVal : Except Err Unit → String
   | .ok _ => "ok"
   | .error e => "err " ++ e.name
 
+/-- `kind:iss:serial:ski:ok1+ok2` -/
+def parseSigner (s : String) : Option Signer :=
+  match splitList s ':' with
+  | [kind, iss, serial, ski, oks] => do
+    some { kind := ← kind.toNat?, iss := ← iss.toNat?, serial := ← serial.toNat?, ski := ← ski.toNat?,
+           okUnder := ← (splitList oks '+').mapM (·.toNat?) }
+  | _ => none
+
+def insertSorted (x : Nat) : List Nat → List Nat
+  | [] => [x]
+  | y :: ys => if x ≤ y then x :: y :: ys else y :: insertSorted x ys
+
+def sortNats (l : List Nat) : List Nat := l.foldr insertSorted []
+
+def showNats (l : List Nat) : String :=
+  if l.isEmpty then "-" else ",".intercalate (l.map toString)
+
+def showUpdate (u : Update) : String :=
+  (match u.type with | .sensitive => "sensitive" | .regular => "regular") ++
+  " nv=" ++ showNats (sortNats (u.newVoters.map (·.1))) ++
+  " v=" ++ showNats (u.votes.map (·.1)) ++
+  " a=" ++ showNats (sortNats (u.acks.map (·.1)))
+
+def showVerify (t : TRC) (p : Option TRC) (r : Except VRej (Option Update)) : String :=
+  let head := match r with
+    | .ok _ => "ok"
+    | .error (.upd (.val e)) => "val " ++ e.name
+    | .error (.upd .noVotesPanic) => "panic"
+    | .error (.upd _) => "upd-rej"
+    | .error .basePred => "base-pred"
+    | .error _ => "sig-rej"
+  -- the classification is reported whenever `ValidateUpdate` itself succeeds
+  if t.isBase then head else
+    match validateUpdate t p with
+    | .ok u => head ++ " | " ++ showUpdate u
+    | .error _ => head
+
 def handle : List String → String
   | "val" :: rest => match parseTRC rest with
     | some t => showVal (validate t)
     | none => "bad-op"
+  | "upd" :: rest =>
+    match parseTRC (rest.take 13), rest.drop 13 with
+    | some t, "P" :: rest2 =>
+      let pr : Option (Option TRC × List String) := match rest2 with
+        | "nil" :: r => some (none, r)
+        | _ => (parseTRC (rest2.take 13)).map (fun p => (some p, rest2.drop 13))
+      match pr with
+      | some (p, ["S", sis]) =>
+        match (splitList sis ',').mapM parseSigner with
+        | some sis => showVerify t p (verify sis t p)
+        | none => "bad-op"
+      | _ => "bad-op"
+    | _, _ => "bad-op"
   | _ => "bad-op"
 
 end Driver.Trc
